@@ -852,7 +852,7 @@ pub mod leaf_updater {
     pub const MAX_LEAF_VALUE_SIZE: usize = crate::beatree::ops::leaf_updater_verif::consts::MAX_VALUE;
 }
 
-// H14 — The page walker (`merkle/page_walker.rs`): the real `PageWalker<Blake3Hasher>` over an in-memory
+// H16 — The page walker (`merkle/page_walker.rs`): the real `PageWalker<Blake3Hasher>` over an in-memory
 // implementation of its `PageSet` trait, driven call by call (`new / advance / advance_and_replace /
 // advance_and_place_node / conclude`, `reconstruct_pages`, `count_leaves`), with a view of its private state
 // and every page of its output.
@@ -863,4 +863,23 @@ pub mod page_walker {
     };
     /// `PAGE_ELISION_THRESHOLD`.
     pub const PAGE_ELISION_THRESHOLD: u64 = crate::merkle::PAGE_ELISION_THRESHOLD;
+}
+
+// H17 — The branch stage of the B-tree update (`beatree/ops/update/branch_updater.rs`, `branch_ops.rs`,
+// `branch_stage.rs`): the real `BranchUpdater` (with its `BranchOpsTracker` / `BranchGauge` / `build_branch`) on
+// caller-supplied base nodes built with the real `BranchNodeBuilder`, its produced nodes / separators / cutoffs and a
+// view of its private state; and the whole real stage (`branch_stage::run`) on an index of caller-supplied nodes.
+pub mod branch_updater {
+    pub use crate::beatree::ops::branch_stage_verif::{run_stage, StageEnv, StageOut};
+    pub use crate::beatree::ops::branch_updater_verif::{
+        make_node, view_of, BranchUpdaterSim, DigestOutcome, GaugeView, NodeHandle, NodeView,
+        OpView, Produced, StateView,
+    };
+    /// The constants the updater works with.
+    pub const BRANCH_NODE_BODY_SIZE: usize = crate::beatree::ops::branch_updater_verif::consts::BODY;
+    pub const BRANCH_MERGE_THRESHOLD: usize = crate::beatree::ops::branch_updater_verif::consts::MERGE;
+    pub const BRANCH_BULK_SPLIT_THRESHOLD: usize =
+        crate::beatree::ops::branch_updater_verif::consts::BULK_THRESHOLD;
+    pub const BRANCH_BULK_SPLIT_TARGET: usize =
+        crate::beatree::ops::branch_updater_verif::consts::BULK_TARGET;
 }
